@@ -32,8 +32,10 @@ Definition dJobSpecC : dec job_spec :=
 
 (* an item of a history: a cache operation, or (agent stream) the execution of the queued binds --
    pre-binders, then Binder.Bind -- with the tasks whose PreBind fails *)
-Inductive item := IOp (o : cache_op) | IFlow (fails : list positive).
-Definition ops_of (l : list item) : list cache_op := omap (fun i => match i with IOp o => Some o | IFlow _ => None end) l.
+Inductive item := IOp (o : cache_op) | IFlow (fails : list positive)
+  (* the queued binds executed as ONE batch: tasks whose PreBind fails, tasks whose Binding the binder reports failed *)
+  | IBatch (pre_fails bind_fails : list positive).
+Definition ops_of (l : list item) : list cache_op := omap (fun i => match i with IOp o => Some o | _ => None end) l.
 
 Record bind_case := mkBindCase {
   bc_eps : Z; bc_nodes : list node_spec; bc_jobs : list job_spec; bc_tasks : list task_spec;
@@ -57,6 +59,7 @@ Definition dBindOp : dec cache_op :=
 Definition dBindReq : dec item :=
   fun l => match l with
            | 9 :: r => (let* f := dListC dPos in ret (IFlow f)) r
+           | 10 :: r => (let* f := dListC dPos in let* g := dListC dPos in ret (IBatch f g)) r
            | _ => (let* o := dBindOp in ret (IOp o)) l
            end.
 
@@ -114,6 +117,11 @@ Definition run_agent (b : bind_case) : list Z :=
                                         then agent_event (bc_eps b) (fun i => known !! i) ns (EvUnbind (fst p) (snd p)) else ns) pending ns in
       let bound' := flat_map (fun p => if bool_decide (fst p ∈ fails) then [] else [Zpos (fst p); Zpos (snd p)]) pending in
       (ns', out ++ [9], [], bound ++ bound')
+    | IBatch pf bf =>
+      (* BindModel.flow_batch: one batch; exactly the contexts named by a failure are resynced, the
+         others were bound *)
+      let '(ns', bd) := flow_batch (bc_eps b) (fun i => known !! i) pf bf ns pending in
+      (ns', out ++ [9], [], bound ++ flat_map (fun p => [Zpos (fst p); Zpos (snd p)]) bd)
     end in
   let '(ns', out, _, bound) := fold_left step (bc_items b) (c_nodes c, [], [], []) in
   Z.of_nat (length (bc_items b)) :: out ++ [-112] ++ eList (fun kv => eNode (snd kv)) (sort_kv (map_to_list ns')) ++
@@ -144,6 +152,20 @@ Definition law_bind (b : bind_case) (held : list (positive * list positive)) : b
 
 Definition dBindLaw : dec (bind_case * list (positive * list positive)) :=
   let* b := dBindCase in let* h := dListC (dPair dPos (dListC dPos)) in ret (b, h).
+
+(* ---- law 117 (agent bind execution over a batch) ----
+   per batch: the tasks whose PreBind fails, the tasks whose Binding the binder reports failed, and
+   per context (task, node, on the node's ledger before the batch, after the batch): a context stays
+   on the ledger exactly when neither failure names it (BindLemmas.flow_batch_keeps_bound; a context
+   named by a failure is taken off by EvUnbind) *)
+Definition law_batch (x : list positive * list positive * list (positive * positive * bool * bool)) : bool :=
+  let '(pf, bf, cs) := x in
+  forallb (fun c => let '(t, _, before, after) := c in
+             Bool.eqb after (before && negb (bool_decide (t ∈ pf)) && negb (bool_decide (t ∈ bf)))) cs.
+Definition dBatchLaw : dec (list (list positive * list positive * list (positive * positive * bool * bool))) :=
+  dListC (let* pf := dListC dPos in let* bf := dListC dPos in
+          let* cs := dListC (let* t := dPos in let* n := dPos in let* x := dBool in let* y := dBool in ret (t, n, x, y)) in
+          ret (pf, bf, cs)).
 
 (* ---- stream 4: preempt / reclaim / allocate / backfill action lists.  Wire format of C02's own
         (harness/cmd/c02/evict.go encEvictCase): eps, nodes, jobs, tasks -- what the model reads --
@@ -199,6 +221,7 @@ Definition entry (sel : Z) (toks : list Z) : list Z :=
   (* 116: law 112 again, on the held sets WITHOUT the pods a known finding explains (emitted unsigned
      next to a signed 112, so that any other overcommit in the same history is still reported) *)
   | 116 => match run_dec dBindLaw toks with Some (b, h) => eBool (law_bind b h) | None => bad_input end
+  | 117 => match run_dec dBatchLaw toks with Some l => eBool (forallb law_batch l) | None => bad_input end
   | 113 => match run_dec dLawIn toks with Some (c, _, _) => eBool (world_ok_b (cc_eps c) (world_of c) && nodes_acct_b (nodes (w_sess (world_of c)))) | None => bad_input end
   | _ => cycle_entry sel toks
   end.
